@@ -383,6 +383,106 @@ def guard_json_data(w, fn, st, val):
     return "unguarded"
 
 
+# ---------------------------------------------------------------- behavioural confirmation of a guard the AST matcher cannot follow
+# A behaviour-preserving rewrite (validation moved into helpers, a comprehension / generator feeding list.extend, the scalar form
+# normalised to a one-element list ...) leaves the store guarded although none of the idioms above matches.  For the two writers
+# whose guard is a pure function of (class tables, value) the running class then decides: the store counts as guarded by the SAME
+# label iff, over a fixed candidate set x every argument form, the call accepts exactly the members the tables define, stores
+# exactly what was handed over and stores nothing on a rejection (Tags: also keeps no reference to the caller's list).  The
+# per-entry-point probes of the harness (harness/lib_c16ep.py, every run) remain the obligation behind the row.
+PROBED = []      # guards confirmed behaviourally in this run (goes into the report)
+
+_LABEL_CANDS = ["", " ", "zz", "zz\n", "1", "-1", "0", "7", "4095", "4096", "65536", "99999999999999999999", "1 ", " 1", "1\n", "+1", "1_0", "a b",
+                "0000:00:00.0", "0000:00:00x0", "00:11:22:33:44:55", "00:11:22:33:44:55\n", "10.0.0.1", "10.0.0.256", "::1", "10.0.0.0/24",
+                "fe80::/64", "1-2", "2-1", "key-123456", "x"]
+
+
+def probe_labels_guard():
+    import importlib
+    import re
+    try:
+        cl = importlib.import_module("fim.slivers.capacities_labels")
+        Labels, LE = cl.Labels, cl.LabelException
+        fields = [k for k in Labels().__dict__ if Labels.VALIDATORS.get(k) is not None or Labels.LAMBDA_VALIDATORS.get(k) is not None]
+        if not fields:
+            return False
+        for k in fields:
+            def member(c, k=k):
+                try:
+                    if Labels.VALIDATORS.get(k) is not None and re.fullmatch(Labels.VALIDATORS[k][0], c) is None:
+                        return False
+                    if Labels.LAMBDA_VALIDATORS.get(k) is not None and Labels.LAMBDA_VALIDATORS[k][0](c) is False:
+                        return False
+                    return True
+                except Exception:
+                    return False
+            cands = list(_LABEL_CANDS)
+            if Labels.VALIDATORS.get(k) is not None:
+                ex = Labels.VALIDATORS[k][1]
+                cands.append(ex.split("'")[1] if "'" in ex else ex)
+            good = [c for c in cands if member(c)]
+            for c in cands:
+                forms = [(c, member(c)), ([c], member(c))]
+                if good:
+                    forms += [([good[0], c], member(c)), ([c, good[0]], member(c)), ([good[0], c, good[-1]], member(c))]
+                for form, want in forms:
+                    lab = Labels()
+                    try:
+                        lab._set_fields(**{k: form})
+                        acc = True
+                    except LE:
+                        acc = False
+                    if acc != want or (acc and getattr(lab, k) != form) or (not acc and getattr(lab, k) is not None):
+                        return False
+        return True
+    except Exception:
+        return False
+
+
+def probe_tags_guard():
+    import importlib
+    try:
+        tg = importlib.import_module("fim.slivers.tags")
+        T, TE = tg.Tags, tg.TagException
+        cands = ["a", "gpu", "blue-1", "a b", "", " ", "tag\n", "not valid!", "x" * 300, 7, None, "\u00e9", "a\tb"]
+
+        def member(c):
+            return isinstance(c, str) and T.compiled_pattern.fullmatch(c) is not None
+        good = [c for c in cands if member(c)]
+        if not good or all(member(c) for c in cands):
+            return False
+        g = good[0]
+        for c in cands:
+            forms = [((c,), [c]), (([g, c],), [g, c]), (((c, g),), [c, g]), ((g, [c]), [g, c]), (([c],), [c]), (((g,), c, [g]), [g, c, g])]
+            for args, flat in forms:
+                want = all(member(x) for x in flat)
+                try:
+                    t = T(*args)
+                    acc = True
+                except TE:
+                    acc = False
+                if acc != want or (acc and list(t.tags) != flat):
+                    return False
+        lst = [g, good[-1]]
+        t = T(lst)
+        lst.append("not valid!\n")
+        lst[0] = "not valid!\n"
+        if list(t.tags) != [g, good[-1]]:
+            return False                        # keeps the caller's list: what is stored is not what was checked
+        return True
+    except Exception:
+        return False
+
+
+def confirm(label, probe):
+    """`label` if the behavioural probe confirms the guard the AST matcher could not follow, else 'unguarded'"""
+    if probe():
+        if label not in PROBED:
+            PROBED.append(label)
+        return label
+    return "unguarded"
+
+
 # ---------------------------------------------------------------- stores
 
 def scan_stores(w):
@@ -419,6 +519,8 @@ def scan_stores(w):
                         if a == "tags" and fn.cls == "Tags":
                             g = "empty" if (isinstance(val, ast.Call) and _name(val.func) == "list" and not val.args) or \
                                 (isinstance(val, ast.List) and not val.elts) else "unguarded"
+                            if g == "unguarded" and recv_self and fn.node.name == "__init__":
+                                g = confirm("check:Tags._check", probe_tags_guard)     # e.g. self.tags = [checked(t) for t in ...]
                             stores.append((fn.qual, "tags", ".tags =", g if recv_self else "unguarded"))
                             continue
                         if recv_self and w.derives(fn.cls, "BaseSliver"):
@@ -458,7 +560,10 @@ def scan_stores(w):
             f = n.func
             if isinstance(f, ast.Attribute) and f.attr == "__setattr__" or _name(f) == "setattr":
                 if fn.cls == "Labels" and fn.node.name == "_set_fields" and isinstance(f, ast.Attribute) and _name(f.value) == "self":
-                    stores.append((fn.qual, "labelfield", "self.__setattr__(k, v)", guard_labels_setattr(w, fn, n)))
+                    g = guard_labels_setattr(w, fn, n)
+                    if g == "unguarded":
+                        g = confirm("regex+range:VALIDATORS", probe_labels_guard)
+                    stores.append((fn.qual, "labelfield", "self.__setattr__(k, v)", g))
                 elif fn.cls == "JSONField" and fn.node.name == "update" and isinstance(f, ast.Attribute):
                     stores.append((fn.qual, "labelfield", "inst.__setattr__(k, v)", guard_update_copy(w, fn, n)))
                 elif w.derives(fn.cls, "JSONField") and fn.cls not in ("Labels", "JSONField") and fn.node.name == "_set_fields":
@@ -470,6 +575,8 @@ def scan_stores(w):
                     stores.append((fn.qual, "dynamic", "__dict__.update", "unguarded"))
             elif isinstance(f, ast.Attribute) and f.attr in ("append", "extend", "insert") and isinstance(f.value, ast.Attribute) and f.value.attr == "tags":
                 g = guard_tags_append(w, fn, n) if fn.cls == "Tags" and fn.node.name == "__init__" else "unguarded"
+                if g == "unguarded" and fn.cls == "Tags" and fn.node.name == "__init__" and _name(f.value.value) == "self":
+                    g = confirm("check:Tags._check", probe_tags_guard)
                 stores.append((fn.qual, "tag", ".tags.%s" % f.attr, g))
             elif in_user and isinstance(f, ast.Attribute) and f.attr in GRAPH_WRITE_CALLS:
                 stores.append(graph_write(w, fn, n))
@@ -928,6 +1035,10 @@ def set_fields_skeleton(w):
                 elif isinstance(x, ast.Expr) and isinstance(x.value, ast.Call) and getattr(x.value.func, "attr", "") == "__setattr__" \
                         and [_name(a) for a in x.value.args] == [k, v]:
                     out.append("store")
+                elif (isinstance(x, ast.Assign) and all(isinstance(t, ast.Name) and t.id not in (k, v, "self") for t in x.targets)
+                      and not _contains(x.value, lambda y: (isinstance(y, ast.Call) and _name(y.func) != "isinstance")
+                                        or isinstance(y, (ast.Await, ast.Yield, ast.YieldFrom, ast.NamedExpr)))):
+                    continue            # a pure local binding (candidates = v if isinstance(v, list) else [v]): no check, no store
                 else:
                     out.append("?" + type(x).__name__)
             hs = st.handlers
@@ -1095,6 +1206,7 @@ def generate():
         raise pending
     return {"stores": len(stores), "unguarded_stores": [s for s in stores if s[3] == "unguarded"],
             "entry_points": len(names), "rows": len(entries), "probed": len([n for n in names if n in probes]),
+            "guards_confirmed_behaviourally": list(PROBED),
             "exempt": {n: exempt[n] for n in names if n in exempt},
             "not_reaching": [(e["entry"], e["param"]) for e in entries if not e["ok"]], "changed": changed,
             "set_fields_skeleton": sk, "derived_rows": len(drows), "composed_names": len(crows), "composed_unvalidated": [r for r in crows if not r[3]], "dropped_kwargs": sorted(DROPPED_KWARGS), "not_entry": NOT_ENTRY}
